@@ -169,6 +169,38 @@ func (h *concHist) streamMonitors() *Fail {
 			}
 		}
 	}
+	// 9. Stat.Messages within the bounds real time allows (Stat is exempt from linearizability only in
+	// that it may count a batch that is still being appended; it must still describe the log)
+	for _, o := range ops {
+		if !o.Done || o.Kind != "stat" || o.Err != "" {
+			continue
+		}
+		var lo, hi int
+		for _, p := range ops {
+			if !p.Done {
+				continue
+			}
+			switch p.Kind {
+			case "publish":
+				if p.Ret < o.Call {
+					lo += len(p.Pub)
+				}
+				if p.Call < o.Ret {
+					hi += len(p.Pub)
+				}
+			case "delete":
+				if p.Call < o.Ret {
+					lo -= len(p.Out)
+				}
+				if p.Ret < o.Call {
+					hi -= len(p.Out)
+				}
+			}
+		}
+		if o.Stat.Messages < lo || o.Stat.Messages > hi {
+			return failf("stat:out-of-bounds", "Stat reported %d messages in %d segments; the publishes and deletes around the call allow only %d..%d", o.Stat.Messages, o.Stat.Segments, lo, hi)
+		}
+	}
 	// 8. NextOffset / Sync within the bounds real time allows
 	for _, o := range ops {
 		if !o.Done || (o.Kind != "next" && o.Kind != "sync") {
